@@ -247,7 +247,13 @@ def validate(seed, tier):
                 inp.update(mode=mode, tol=tol)
                 runner.concrete_check('compress', inp)
                 n += 1
-    return dict(concrete_inputs_checked=n)
+    # the opt-in lemma of the SVD stub (sum |a_ij|^2 = sum s_k^2) against LAPACK
+    for trial in range(5):
+        M = rng.standard_normal((3, 2)) + 1j * rng.standard_normal((3, 2))
+        sv = shims._orig['svd'](M, full_matrices=False)[1]
+        if abs(np.sum(np.abs(M) ** 2) - np.sum(sv ** 2)) > 1e-10 * np.sum(sv ** 2):
+            raise runner.HarnessError('LAPACK SVD violates the Frobenius identity?')
+    return dict(concrete_inputs_checked=n, svd_frobenius_lemma_validated=5)
 
 
 def evidence(tier, seed, total, per_task, val):
